@@ -64,10 +64,15 @@ fn main() {
         }
     } else {
         let mut rng = Rng::new(args.seed);
-        let n_inputs = args.num("inputs", 36, 300) as usize;
+        let n_inputs = args.num("inputs", 40, 300) as usize;
         for _ in 0..n_inputs {
-            let mut rc = if rng.chance(3, 5) { Recipe::random_program(&mut rng) } else { Recipe::random_gadget(&mut rng) };
-            if rc.g == "random" {
+            let mut rc = match rng.below(10) {
+                0..=3 => Recipe::random_program(&mut rng),
+                4..=6 => Recipe::random_shared(&mut rng),
+                _ => Recipe::random_gadget(&mut rng),
+            };
+            if rc.g == "special" {
+            } else if rc.g == "random" {
                 rc.shared = !rng.chance(1, 5);
             } else {
                 rc.extra = 1 + rng.below(3) as usize;
